@@ -44,6 +44,9 @@ func (g *Gen) FieldValue(c *ColDesc) GV {
 		e := g.Scalar(c.Ty[1:])
 		return GV{T: "ptr", Addr: g.NewAddr(), Elem: &e}
 	}
+	if c.Ty == "bytes" && g.R.Chance(20) {
+		return GV{T: "nilbytes"}
+	}
 	return g.Scalar(c.Ty)
 }
 
@@ -75,6 +78,8 @@ func (g *Gen) Retype(v GV) GV {
 		}
 		e := *v.Elem
 		return GV{T: "ptr", Addr: g.NewAddr(), Elem: &e} // same content, another pointer
+	case "nilbytes":
+		return GV{T: "nil"}
 	case "nil":
 		return GV{T: "nilptr", PT: "int64"}
 	case "nilptr":
@@ -110,6 +115,11 @@ func (g *Gen) Other(v GV) GV {
 	case "ptr":
 		e := g.Other(*v.Elem)
 		return GV{T: "ptr", Addr: g.NewAddr(), Elem: &e}
+	case "nilbytes":
+		if g.R.Bool() {
+			return GV{T: "bytes"} // empty, not nil: '' rather than NULL
+		}
+		return GV{T: "bytes", S: "z"}
 	case "nil", "nilptr":
 		return GV{T: "int64", Z: 7}
 	case "string", "Label", "bytes":
